@@ -322,6 +322,17 @@ def e_message_shapes(doc, rnd):
     add_notification(doc, "textDocument/verifDidQuery", "VerifDidQueryNotification", ref("VerifQueryParams"), messageDirection="clientToServer", registrationOptions=ref("VerifQueryRegistrationOptions"))
 
 
+def e_alias_shapes(doc, rnd):
+    """Type aliases of every type form (the committed model has or / array / reference / base aliases only)."""
+    doc["typeAliases"] += [
+        {"name": "VerifMode", "type": {"kind": "stringLiteral", "value": "strict"}},
+        {"name": "VerifIndex", "type": {"kind": "map", "key": S, "value": U}},
+        {"name": "VerifSpan", "type": {"kind": "tuple", "items": [U, U]}},
+        {"name": "VerifNameList", "type": arr(S)},
+    ]
+    struct(doc, optional_sites(doc, rnd, 1)[0])["properties"] += [prop("verifIndex", ref("VerifIndex"), True), prop("verifSpan", ref("VerifSpan"), True), prop("verifAliasedNames", ref("VerifNameList"), True)]
+
+
 def e_nullable_request_params(doc, rnd):
     """A request whose params type admits null.  Schema-valid, but outside what the python / rust / dotnet plugins process (they require
     the params of a message to be a reference); the testdata plugin does process it, so it is checked on its own (RESTRICTED)."""
@@ -329,8 +340,18 @@ def e_nullable_request_params(doc, rnd):
     add_notification(doc, "verif/didFocus", "VerifDidFocusNotification", orn(ref("TextDocumentIdentifier")))
 
 
-# edits that only some plugins can process: name -> (function, plugins to run, sub-checks to run)
-RESTRICTED = {"nullable-message-params": (e_nullable_request_params, [], ["C17"])}
+def e_single_alternative_or_alias(doc, rnd):
+    """`type X = string | null` at the alias level: one alternative besides null."""
+    doc["typeAliases"].append({"name": "VerifMaybeName", "type": orn(S)})
+    struct(doc, optional_sites(doc, rnd, 1)[0])["properties"].append(prop("verifMaybeName", ref("VerifMaybeName"), True))
+
+
+# edits that only some plugins can process: name -> (function, plugins to run, sub-checks to run).  The plugins listed are RUN (their
+# failure is reported under the stable key evolve:<plugin>:exit:<edit>, recorded in known_findings.jsonl where it is a known limitation)
+RESTRICTED = {
+    "nullable-message-params": (e_nullable_request_params, ["python", "rust", "dotnet"], ["C17"]),
+    "single-alternative-or-alias": (e_single_alternative_or_alias, ["python", "rust", "dotnet"], ["C07"]),
+}
 
 
 EDITS: List[Edit] = [
@@ -352,6 +373,7 @@ EDITS: List[Edit] = [
     ("name-shapes", e_name_shapes),
     ("nested-containers", e_nested_containers),
     ("message-shapes", e_message_shapes),
+    ("alias-shapes", e_alias_shapes),
 ]
 
 
